@@ -343,7 +343,7 @@ impl Prop for C08Prop {
         cx.states.push(super::lifecycle::ops_hash(&case.ops));
     }
     fn rule(&self) -> String {
-        "graphs of all 8 kinds (n <= 9 or 21-40; shapes and lifecycle-built), hop counts or positive weights; relations of the implementation against itself: all_pairs = multi_source(all nodes) = single_source per node; every combination of target in {None, nodes} x cutoff in {None, each distinct distance, midpoints, below the minimum, above the maximum} x first_only x with_paths is a restriction of the unrestricted answer with unchanged values; with_paths=false (distance-only fast path) vs the full algorithm; undirected symmetry; triangle inequality; get_all_shortest_paths_involving = pairs with the node strictly inside; above 20 nodes all_pairs / multi_source run under a simulated pool while single_source is serial. distinct_nontrivial = distinct graphs with >= 2 edges; one case in 1000 is a dense graph (1-3 blocks, 60-300 nodes) with 2 100 - 12 500 stored edges under a pool of 2-16 workers (strategy thresholds)".into()
+        "graphs of all 8 kinds (n <= 9 or 21-40; shapes and lifecycle-built), hop counts or positive weights; relations of the implementation against itself: all_pairs = multi_source(all nodes) = single_source per node; every combination of target in {None, nodes} x cutoff in {None, each distinct distance, midpoints, below the minimum, above the maximum} x first_only x with_paths is a restriction of the unrestricted answer with unchanged values; with_paths=false (distance-only fast path) vs the full algorithm; undirected symmetry; triangle inequality; get_all_shortest_paths_involving = pairs with the node strictly inside; above 20 nodes all_pairs / multi_source run under a simulated pool while single_source is serial. distinct_nontrivial = distinct graphs with >= 2 edges; one case in 1000 is a dense graph (1-3 blocks, 60-300 nodes) with 2 100 - 12 500 stored edges under a pool of 2-16 workers (strategy thresholds); in a third of the cases a battery of valid unjudged calls runs first on a sibling graph (same names and edges, other node order), in a fifth the graph is queried on the same object before its last one to three operations are applied (DESIGN.md 0.2)".into()
     }
     fn assumptions(&self) -> Vec<String> {
         vec!["with first_only the choice of the path is unspecified: only membership in the all-paths answer is required, and entry points are compared with first_only=false".into(), "distances are compared bit-exactly under dyadic weights / hop counts and at 1e-9 otherwise".into()]
